@@ -314,6 +314,30 @@ pub fn run_check(replay: Option<Value>) -> i32 {
                         viols.push(("accuracy".into(), format!("rtol={:e}: final error is {:.1} tolerance units (bound {:.0})", rtol, e, bound)));
                     }
                     if p.name == "robertson" {
+                        // per-component absolute tolerances with different atol/rtol ratios: the small
+                        // species is governed by its own (1e6 times tighter) entry
+                        let av: Vec<f64> = vec![rtol * 1e-4, rtol * 1e-10, rtol * 1e-4];
+                        let mut cv = c.clone();
+                        cv.rtol = crate::run::Tol::V(vec![*rtol; 3]);
+                        cv.atol = crate::run::Tol::V(av.clone());
+                        let rv = run(p, &cv);
+                        out.events += rv.st.n_ode + rv.st.n_jac;
+                        match rv.sol() {
+                            Some(sv) if sv.status == Status::Success => {
+                                let ylv = sv.y.last().unwrap();
+                                for i in 0..3 {
+                                    let tol_i = av[i] + rtol * yref[i].abs();
+                                    let e_i = (ylv[i] - yref[i]).abs() / tol_i;
+                                    let b_i = 50.0 * sv.naccpt.max(1) as f64;
+                                    if e_i > b_i {
+                                        viols.push(("accuracy-per-component".into(), format!("rtol={:e}, atol={:?}: component {} is off by {:.1} of its own tolerance units (bound {:.0})", rtol, av, i, e_i, b_i)));
+                                    }
+                                }
+                                out.validated += 1;
+                                out.tag("per-component-tolerances");
+                            }
+                            _ => viols.push(("status".into(), format!("rtol={:e} with per-component atol {:?}: run ended with {}", rtol, av, rv.outcome_name()))),
+                        }
                         let worst = s.y.iter().map(|y| (y.iter().sum::<f64>() - 1.0).abs()).fold(0.0, f64::max);
                         let lim = if idx[2] == 0 { 64.0 * f64::EPSILON * s.naccpt.max(1) as f64 } else { *rtol };
                         if worst > lim {
